@@ -353,9 +353,12 @@ func walk(n *node, key string, depth int, out *[]slot) {
 		return
 	}
 	for i, v := range n.vals {
-		k := ""
-		if n.kind == kMap && n.keys[i].kind == kScalar {
-			k = n.keys[i].raw
+		k := key // list items inherit the key of their list: items of dependencies / maintainers / entries are hot too
+		if n.kind == kMap {
+			k = ""
+			if n.keys[i].kind == kScalar {
+				k = n.keys[i].raw
+			}
 		}
 		*out = append(*out, slot{n, i, k, depth + 1})
 		walk(v, k, depth+1, out)
